@@ -396,9 +396,8 @@ class Layouts:
                 if fmt is None:
                     self._unknown(t, "(struct.pack format)")
                 order = "little" if fmt.startswith("<") else ("big" if fmt.startswith((">", "!")) else "little")
-                codes = fmt.lstrip("<>!=@")
                 import re as _re
-                codes = "".join(ch * int(n or 1) for n, ch in _re.findall(r"(\d*)([A-Za-z])", codes))
+                toks = _re.findall(r"(\d*)([A-Za-z?])", fmt.lstrip("<>!=@").replace(" ", ""))
                 sizes = {"B": 1, "b": 1, "H": 2, "h": 2, "I": 4, "i": 4, "L": 4, "l": 4, "Q": 8, "q": 8}
                 vals = []
                 for a_ in args[1:]:
@@ -406,12 +405,36 @@ class Layouts:
                         vals += list(strip(a_[1])[1])
                     else:
                         vals.append(a_)
-                if len(codes) != len(vals) or any(c not in sizes for c in codes):
+                out, k = [], 0
+                for cnt, ch in toks:
+                    n = int(cnt) if cnt else 1
+                    if ch == "x":
+                        out.append(Zeros(n))
+                    elif ch == "s":
+                        # one bytes value on exactly n bytes (shorter values are zero-padded by struct)
+                        if k >= len(vals):
+                            self._unknown(t, "(struct.pack format/arity)")
+                        inner = self.layout(vals[k], depth)
+                        k += 1
+                        tl_ = total(inner)
+                        if not tl_.is_const() or int(tl_.c) > n:
+                            self._unknown(t, "(struct.pack 's' field of unknown / larger size)")
+                        out += inner + ([Zeros(n - int(tl_.c))] if int(tl_.c) < n else [])
+                    elif ch in sizes:
+                        for _ in range(n):
+                            if k >= len(vals):
+                                self._unknown(t, "(struct.pack format/arity)")
+                            v = vals[k]
+                            k += 1
+                            if ch in "bhilq":
+                                self.notes.append(f"struct.pack format {fmt!r} uses a signed code")
+                                v = ("signed", v)
+                            out.append(Field(sizes[ch], v, order) if sizes[ch] > 1 else Byte(v))
+                    else:
+                        self._unknown(t, "(struct.pack format code)")
+                if k != len(vals):
                     self._unknown(t, "(struct.pack format/arity)")
-                if any(c in "bhilq" for c in codes):
-                    self.notes.append(f"struct.pack format {fmt!r} uses a signed code")
-                    return [Field(sizes[c], ("signed", v) if c in "bhilq" else v, order) if sizes[c] > 1 else Byte(v) for c, v in zip(codes, vals)]
-                return [Field(sizes[c], v, order) if sizes[c] > 1 else Byte(v) for c, v in zip(codes, vals)]
+                return out
             if name == "Crypto.Random.get_random_bytes":
                 return [Opaque("random", lin(args[0]) or Lin(0, {args[0]: 1}), key=args[0])]
             if name == "Crypto.Util.Padding.pad":
